@@ -1,0 +1,32 @@
+//go:build verif
+
+package gateway
+
+import (
+	gatewayv1 "sigs.k8s.io/gateway-api/apis/v1"
+	gatewayv1alpha2 "sigs.k8s.io/gateway-api/apis/v1alpha2"
+)
+
+// VerifSortHTTPRoutes runs sortHTTPRoutes on the routes, in place.
+func VerifSortHTTPRoutes(routes []*gatewayv1.HTTPRoute) {
+	sources := make([]*httpRouteSource, len(routes))
+	for i := range routes {
+		sources[i] = newHTTPRouteSource(routes[i], &routes[i].Spec)
+	}
+	sortHTTPRoutes(sources)
+	for i := range sources {
+		routes[i] = sources[i].obj.(*gatewayv1.HTTPRoute)
+	}
+}
+
+// VerifSortTCPRoutes runs sortTCPRoutes on the routes, in place.
+func VerifSortTCPRoutes(routes []*gatewayv1alpha2.TCPRoute) {
+	sources := make([]*tcpRouteSource, len(routes))
+	for i := range routes {
+		sources[i] = newTCPRouteSource(routes[i], &routes[i].Spec)
+	}
+	sortTCPRoutes(sources)
+	for i := range sources {
+		routes[i] = sources[i].obj.(*gatewayv1alpha2.TCPRoute)
+	}
+}
